@@ -305,12 +305,12 @@ func fileLockIsStale(meta lockMeta) bool {
 // identified by filename. A successfully created
 // lockfile should be removed with removeLockfile.
 func createLockfile(filename string) error {
-	err := atomicallyCreateFile(filename, true)
+	created, err := atomicallyCreateFile(filename, true)
 	if err != nil {
 		return err
 	}
 
-	go keepLockfileFresh(filename)
+	go keepLockfileFresh(filename, created)
 
 	return nil
 }
@@ -318,11 +318,13 @@ func createLockfile(filename string) error {
 // keepLockfileFresh continuously updates the lock file
 // at filename with the current timestamp. It stops
 // when the file disappears (happy path = lock released),
+// when the file is no longer the one created at the given
+// time (lock released and since acquired by someone else),
 // or when there is an error at any point. Since it polls
 // every lockFreshnessInterval, this function might
 // not terminate until up to lockFreshnessInterval after
 // the lock is released.
-func keepLockfileFresh(filename string) {
+func keepLockfileFresh(filename string, created time.Time) {
 	defer func() {
 		if err := recover(); err != nil {
 			buf := make([]byte, stackTraceBufferSize)
@@ -333,7 +335,7 @@ func keepLockfileFresh(filename string) {
 
 	for {
 		time.Sleep(lockFreshnessInterval)
-		done, err := updateLockfileFreshness(filename)
+		done, err := updateLockfileFreshness(filename, created)
 		if err != nil {
 			log.Printf("[ERROR] Keeping lock file fresh: %v - terminating lock maintenance (lockfile: %s)", err, filename)
 			return
@@ -344,10 +346,11 @@ func keepLockfileFresh(filename string) {
 	}
 }
 
-// updateLockfileFreshness updates the lock file at filename
-// with the current timestamp. It returns true if the parent
-// loop can terminate (i.e. no more need to update the lock).
-func updateLockfileFreshness(filename string) (bool, error) {
+// updateLockfileFreshness updates the lock file at filename,
+// which we created at the given time, with the current
+// timestamp. It returns true if the parent loop can terminate
+// (i.e. no more need to update the lock).
+func updateLockfileFreshness(filename string, created time.Time) (bool, error) {
 	f, err := os.OpenFile(filename, os.O_RDWR, 0644)
 	if os.IsNotExist(err) {
 		return true, nil // lock released
@@ -367,6 +370,13 @@ func updateLockfileFreshness(filename string) (bool, error) {
 		// see issue #232: this can error if the file is empty,
 		// which happens sometimes when the disk is REALLY slow
 		return true, err
+	}
+
+	// if this is not the lock file we created, our lock was released and
+	// the file belongs to a later acquirer; keeping it fresh is their job,
+	// and refreshing it here would keep it alive after they crashed
+	if !meta.Created.Equal(created) {
+		return true, nil
 	}
 
 	// truncate file and reset I/O offset to beginning
@@ -392,29 +402,30 @@ func updateLockfileFreshness(filename string) (bool, error) {
 
 // atomicallyCreateFile atomically creates the file
 // identified by filename if it doesn't already exist.
-func atomicallyCreateFile(filename string, writeLockInfo bool) error {
+// It returns the creation time written into the file.
+func atomicallyCreateFile(filename string, writeLockInfo bool) (time.Time, error) {
 	// no need to check this error, we only really care about the file creation error
 	_ = os.MkdirAll(filepath.Dir(filename), 0700)
 	f, err := os.OpenFile(filename, os.O_CREATE|os.O_WRONLY|os.O_EXCL, 0644)
 	if err != nil {
-		return err
+		return time.Time{}, err
 	}
 	defer f.Close()
+	now := time.Now()
 	if writeLockInfo {
-		now := time.Now()
 		meta := lockMeta{
 			Created: now,
 			Updated: now,
 		}
 		if err := json.NewEncoder(f).Encode(meta); err != nil {
-			return err
+			return now, err
 		}
 		// see https://github.com/caddyserver/caddy/issues/3954
 		if err := f.Sync(); err != nil {
-			return err
+			return now, err
 		}
 	}
-	return nil
+	return now, nil
 }
 
 // homeDir returns the best guess of the current user's home
